@@ -54,7 +54,7 @@ def handleStr (fields : List String) : String :=
     | some sc, some old, some new =>
       let fs : FS := match old with | some f => [("target", f)] | none => []
       let r := rewriteFile (fun _ => new) sc "tmp" "target" fs
-      s!"{showOutcome r.outcome} target={showFile (FS.get r.final "target")} tmp={showFile (FS.get r.final "tmp")} states={r.states.length}"
+      s!"{showOutcome r.outcome} target={showFile (FS.get r.final "target")} tmp={showFile (FS.get r.final "tmp")}"
     | _, _, _ => "bad-op"
   | ["c18multi", jobs] =>
     match (splitOn jobs ',').zipIdx.mapM (fun p => parseJob p.2 p.1) with
@@ -78,7 +78,7 @@ def handleStr (fields : List String) : String :=
     | some old, some new, some ot, some otmp =>
       let fs : FS := match old with | some f => [("target", f)] | none => []
       let r := rewriteFile (fun _ => new) {} "tmp" "target" fs
-      if r.states.any (fun st => FS.get st "target" == ot && FS.get st "tmp" == otmp) then "state-of-the-model" else "not-a-state"
+      if (r.states ()).any (fun st => FS.get st "target" == ot && FS.get st "tmp" == otmp) then "state-of-the-model" else "not-a-state"
     | _, _, _, _ => "bad-op"
   | ["c18names", before, after] =>
     let b := if before = "-" then [] else (splitOn before ',')
